@@ -8,6 +8,10 @@
       repeat, an empty session, a session that sets a member to its present value and changes an
       unrelated input, a real change, a change back.  Judged by EngineObsLite: values and - C03 - no
       executor run whose recorded reads all still have their values.
+  gen_unord.py tfc OUT SEED
+      the members of a wide unordered group are queries; one of them switches to another firewall without
+      changing its value while the others are dirty but unchanged: the group's reader is re-verified clean
+      and has to take over the new firewall (chunks of two and more callees: n >= 8 * cpus).
   gen_unord.py race OUT SEED
       a node S reads {slow, fast} as one unordered group: `slow` is the top of a chain (many polls with
       --yields), `fast` a single node over another input; both are dirty after a session, `fast` is found
@@ -60,6 +64,31 @@ def race(chain, slow_first, panicking, rnd):
         acts += [{"a": "query", "t": 0, "n": rnd.choice((s, t))} for _ in range(rnd.randrange(1, 3))]
     return {"prog": {"m": 3, "nodes": nodes}, "actions": acts}
 
+def tfc(n, rnd):
+    """A node Total reads n members as ONE unordered group.  Member 0 reads the firewall LEFT or RIGHT depending
+    on a selector and keeps its value when the selector flips (the two firewalls are equal then); the other
+    members read the selector and keep their value too.  After the flip Total is re-verified clean, but must take
+    over the firewall its member now reaches: the next session changes only what is behind that firewall."""
+    nodes = [node("In"), node("In"), node("In")]            # 1 selector, 2 left input, 3 right input
+    def add(x):
+        nodes.append(x); return len(nodes)
+    gl = add(node("Fw", [item([2])]))
+    gr = add(node("Fw", [item([3])]))
+    # member 0: acc = selector; then + LEFT (selector = 0) or + RIGHT (selector # 0); 1 iff acc >= 3
+    m0 = add(node("Nm", [item([1]), item([gl], g=1, gc=0), item([gr], g=2, gc=0)], post=3))
+    members = [m0] + [add(node("Nm", [item([1])], post=9)) for _ in range(n - 1)]
+    total = add(node("Nm", [item(members, mode=2)]))
+    top = add(node("Nm", [item([total], c=1)]))
+    q = [{"a": "query", "t": 0, "n": top}]
+    acts = [{"a": "begin"}, {"a": "set", "n": 1, "v": 0}, {"a": "set", "n": 2, "v": 3}, {"a": "set", "n": 3, "v": 3}, {"a": "commit"}] + q
+    acts += [{"a": "begin"}, {"a": "set", "n": 1, "v": 1}, {"a": "commit"}] + q            # the selector flips: same values everywhere
+    acts += [{"a": "begin"}, {"a": "set", "n": 3, "v": 0}, {"a": "commit"}] + q            # behind the newly reached firewall
+    acts += [{"a": "begin"}, {"a": "set", "n": 1, "v": 0}, {"a": "commit"}] + q            # back to LEFT
+    acts += [{"a": "begin"}, {"a": "set", "n": 2, "v": 1}, {"a": "commit"}] + q
+    acts += [{"a": "begin"}, {"a": "set", "n": 3, "v": 3}, {"a": "set", "n": 1, "v": 1}, {"a": "commit"}] + q
+    return {"prog": {"m": 7, "nodes": nodes}, "actions": acts}
+
+
 if __name__ == "__main__":
     kind, out, seed = sys.argv[1], sys.argv[2], int(sys.argv[3])
     rnd = random.Random(seed)
@@ -72,6 +101,11 @@ if __name__ == "__main__":
                 ks = sorted({3, 33, 65, 8 * c, 8 * c + 1, 8 * c + 3, 16 * c + 1})
             for k in ks:
                 f.write(json.dumps(wide(k, rnd)) + "\n"); n += 1
+        elif kind == "tfc":
+            c = os.cpu_count() or 4
+            for n in sorted({3, 16, 8 * c, 8 * c + 1, 16 * c, 64, 65}):
+                f.write(json.dumps(tfc(n, rnd)) + "\n"); n and None
+            n = 7
         else:
             for chain in (2, 3, 4):
                 for slow_first in (True, False):
